@@ -545,6 +545,9 @@ def _inline_helper(g, body, a):
     hb = hb.strip()
     assert hb[0] == '{' and hb[-1] == '}'
     expr = hb[1:-1].strip()
+    if expr.endswith(';') and expr.count(';') == 1:
+        # a single expression statement `E;` (value ()): inlined as the expression E
+        expr = expr[:-1].rstrip()
     if ';' in expr:
         raise AnchorLost('helper %s is no longer a single expression' % a['name'])
     hdr, _ = rewrite.r12_strip_comments(h.header)
@@ -573,7 +576,9 @@ def _inline_helper(g, body, a):
         params.append(p_.split(':', 1)[0].strip())
     n = 0
     while True:
-        mm = re.search(r'\bself\s*\.\s*' + re.escape(a['name']) + r'\s*\(', body)
+        recv = a.get('recv', 'self')
+        recv_pat = r'\s*\.\s*'.join(re.escape(x) for x in recv.split('.'))
+        mm = re.search(r'\b' + recv_pat + r'\s*\.\s*' + re.escape(a['name']) + r'\s*\(', body)
         if not mm:
             break
         btoks = lex(body)
@@ -600,7 +605,35 @@ def _inline_helper(g, body, a):
         if len(argv) != len(params):
             raise AnchorLost('helper %s arity changed' % a['name'])
         etoks = lex(expr)
-        new = ''.join((argv[params.index(t[1])] if (t[0] == 'ident' and t[1] in params) else t[1]) for t in etoks)
+        code_idx = [i for i, t in enumerate(etoks) if t[0] not in ('ws', 'lcomment', 'bcomment')]
+        pos_in_code = {i: n_ for n_, i in enumerate(code_idx)}
+        pieces = []
+        # innermost enclosing delimiter of every token (struct-literal shorthand only inside `{}`)
+        innermost = {}
+        stack = []
+        for i, t in enumerate(etoks):
+            if t[0] == 'punct' and t[1] in ')]}' and stack:
+                stack.pop()
+            innermost[i] = stack[-1] if stack else None
+            if t[0] == 'punct' and t[1] in '([{':
+                stack.append(t[1])
+        for i, t in enumerate(etoks):
+            if t[0] == 'ident' and t[1] in params:
+                arg = argv[params.index(t[1])]
+                # struct-literal field shorthand `S { x, y }`: becomes `x: ARG`
+                ci = pos_in_code.get(i)
+                prev_t = etoks[code_idx[ci - 1]] if ci is not None and ci > 0 else None
+                next_t = etoks[code_idx[ci + 1]] if ci is not None and ci + 1 < len(code_idx) else None
+                if (innermost.get(i) == '{' and prev_t is not None and prev_t[0] == 'punct' and prev_t[1] in '{,'
+                        and next_t is not None and next_t[0] == 'punct' and next_t[1] in ',}' and arg != t[1]):
+                    pieces.append(t[1] + ': ' + arg)
+                else:
+                    pieces.append(arg)
+            elif t[0] == 'ident' and t[1] == 'self':
+                pieces.append(recv)
+            else:
+                pieces.append(t[1])
+        new = ''.join(pieces)
         body = body[:mm.start()] + new + body[btoks[c][3]:]
         n += 1
     return body, n
@@ -626,7 +659,7 @@ def _render_fn(g, args, rws, subs, hsubs, sections):
             body, n = _inline_helper(g, body, rep)
             g.rewrites.append({'fn': fname, 'rule': 'R11 inline one-expression helper self.%s(..)' % rep['name'], 'n': n})
             if n == 0:
-                raise AnchorLost('helper call self.%s(..) not found in %s' % (rep['name'], fname))
+                raise AnchorLost('helper call %s.%s(..) not found in %s' % (rep.get('recv', 'self'), rep['name'], fname))
             continue
         body, n = re.subn(pat, rep, body)
         if cnt is not None and cnt >= 0 and n != cnt:
